@@ -22,9 +22,24 @@ nodes:   ["T", s] str | ["X", s] jsx(s) given as a child | ["N", "int"|"float", 
                               tagifiable objects); else a fresh build per call.  key (optional): every F node with the
                               same key in one tree is ONE object (the same tagifiable used in several places)
        | ["O", s]   HTML(s) in a child position
+unusual-but-valid classes: ["str", s, "sub"] / ["int", t, "sub"] / ["float", t, "sub"] / ["T", s, "sub"] are instances of
+       plain subclasses of str / int / float; ["list", kind, items, "sub"] a list / tuple subclass; ["dict", items, cls]
+       with cls "sub" (dict subclass) / "ordered" (OrderedDict)
+prop routes: a "C" node may carry a 7th element saying HOW its props (the kwargs list, in order) reach the component:
+       absent / None   all as keyword arguments of the constructor
+       ["item"]        component built without props, then x.attrs[k] = v for each
+       ["update"]      x.attrs.update({k: v, ...})            ["update-kw"]  x.attrs.update(k=v, ...)
+       ["update-2"]    x.attrs.update({first half}, {second half})  /  ["update-mix"]  x.attrs.update({first half}, **second)
+       ["split"]       first half by keyword at construction, the rest by x.attrs[k] = v
+                       (these six only where no non-empty allow-list is declared: the list is a promise about construction)
+       ["pos", [[where, [rawname...], cls]...]]   the named props are handed over inside dict(s) given as UNNAMED
+                       arguments (where = "first" / "mid" / "last" among the children, or "nested" inside a list
+                       argument; cls = "dict" / "sub" / "attrs" = a JSXTagAttrDict), the others by keyword.  The statement does not promise
+                       that such a dict is accepted; it does promise that a prop outside the allow-list is rejected.
 """
 from __future__ import annotations
 
+import collections
 import glob
 import json
 import os
@@ -130,6 +145,30 @@ class FlakyStr(Other):
         return self.s
 
 
+class UStr(str):
+    """a str that is not a jsx: written as a string literal like any str"""
+
+
+class UInt(int):
+    pass
+
+
+class UFloat(float):
+    pass
+
+
+class UList(list):
+    pass
+
+
+class UTuple(tuple):
+    pass
+
+
+class UDict(dict):
+    pass
+
+
 def make_meta(mid: int):
     k = mid % 3
     if k == 0:
@@ -162,16 +201,25 @@ def build_val(v, reg):
     if k == "bool":
         return bool(v[1])
     if k in ("int", "float"):
-        return make_num(k, v[1])
+        x = make_num(k, v[1])
+        return x if len(v) < 3 else UInt(x) if k == "int" else UFloat(x)
     if k == "str":
-        return v[1]
+        return v[1] if len(v) < 3 else UStr(v[1])
     if k == "jsx":
         return jsx(v[1])
     if k == "list":
         items = [build_val(x, reg) for x in v[2]]
+        if len(v) > 3:
+            return UTuple(items) if v[1] == "tuple" else UList(items)
         return tuple(items) if v[1] == "tuple" else items
     if k == "dict":
-        return {kk: build_val(x, reg) for kk, x in v[1]}
+        d = {kk: build_val(x, reg) for kk, x in v[1]}
+        cls = v[2] if len(v) > 2 else None
+        if cls == "sub":
+            return UDict(d)
+        if cls == "ordered":
+            return collections.OrderedDict(d)
+        return d
     if k == "node":
         return build_node(v[1], reg)
     if k == "other":
@@ -183,10 +231,46 @@ def build_val(v, reg):
     raise ValueError(v)
 
 
+def _with_children(mk, objs, how):
+    """the component made by mk with the children objs added in the way number how"""
+    if how == 1:
+        return mk(None, [objs[:1], None, [objs[1:]]])
+    if how == 2:
+        return mk(TagList(*objs))
+    if how == 3:
+        h = len(objs) // 2
+        x = mk(*objs[:h])
+        if objs[h:]:
+            x.append(*objs[h:])
+        return x
+    if how == 4:
+        x = mk()
+        x.extend(objs)
+        return x
+    if how == 5 and objs:
+        x = mk(*objs[1:])
+        x.children.insert(0, objs[0])
+        return x
+    if how in (6, 7, 8, 9, 10):
+        # JSXTag.extend with every kind of iterable, one-shot ones included
+        h = len(objs) // 2 if how in (6, 8) else 0
+        x = mk(*objs[:h])
+        rest = objs[h:]
+        x.extend(tuple(rest) if how == 6 else (o for o in rest) if how == 7 else iter(rest) if how == 8
+                 else map(lambda o: o, rest) if how == 9 else reversed(rest[::-1]))
+        return x
+    if how == 11:
+        x = mk()
+        for o in objs:
+            x.append(o)
+        return x
+    return mk(*objs)
+
+
 def build_node(n, reg):
     k = n[0]
     if k == "T":
-        return n[1]
+        return n[1] if len(n) < 3 else UStr(n[1])
     if k == "X":
         return jsx(n[1])
     if k == "N":
@@ -218,47 +302,61 @@ def build_node(n, reg):
             reg[key] = t
         return t
     if k == "C":
-        _, name, allowed, kwargs, kids, how = n
+        _, name, allowed, kwargs, kids, how = n[:6]
+        route = n[6] if len(n) > 6 and n[6] else None
         objs = [build_node(x, reg) for x in kids]
-        kw = {kk: build_val(x, reg) for kk, x in kwargs}
+        kwl = [(kk, build_val(x, reg)) for kk, x in kwargs]
+        early, late = kwl, []
+        if route is not None and route[0] == "split":
+            early, late = kwl[:len(kwl) // 2], kwl[len(kwl) // 2:]
+        elif route is not None and route[0] == "pos":
+            inside = {kk for _, ks, _ in route[1] for kk in ks}
+            early = [(kk, x) for kk, x in kwl if kk not in inside]
+        elif route is not None:
+            early, late = [], kwl
+        kw = dict(early)
         if (how + len(kwargs)) % 2 == 0:
             # through the public factory (names come from a small pool and repeat within a run, with different
             # allow-lists: the factory must not remember anything per name)
             mk = lambda *a: jsx_tag_create(name, allowed)(*a, **kw)  # noqa: E731
         else:
             mk = lambda *a: JSXTag(name, *a, allowedProps=allowed, **kw)  # noqa: E731
-        if how == 1:
-            return mk(None, [objs[:1], None, [objs[1:]]])
-        if how == 2:
-            return mk(TagList(*objs))
-        if how == 3:
-            h = len(objs) // 2
-            x = mk(*objs[:h])
-            if objs[h:]:
-                x.append(*objs[h:])
-            return x
-        if how == 4:
-            x = mk()
-            x.extend(objs)
-            return x
-        if how == 5 and objs:
-            x = mk(*objs[1:])
-            x.children.insert(0, objs[0])
-            return x
-        if how in (6, 7, 8, 9, 10):
-            # JSXTag.extend with every kind of iterable, one-shot ones included
-            h = len(objs) // 2 if how in (6, 8) else 0
-            x = mk(*objs[:h])
-            rest = objs[h:]
-            x.extend(tuple(rest) if how == 6 else (o for o in rest) if how == 7 else iter(rest) if how == 8
-                     else map(lambda o: o, rest) if how == 9 else reversed(rest[::-1]))
-            return x
-        if how == 11:
-            x = mk()
-            for o in objs:
-                x.append(o)
-            return x
-        return mk(*objs)
+        if route is not None and route[0] == "pos":
+            vals = dict(kwl)
+            args = list(objs)
+            for where, ks, cls in route[1]:
+                d = {kk: vals[kk] for kk in ks}
+                if cls == "sub":
+                    d = UDict(d)
+                elif cls == "attrs":
+                    d = _jsx.JSXTagAttrDict(**d)      # the attribute map of another component, handed on
+                if where == "first":
+                    args.insert(0, d)
+                elif where == "mid":
+                    args.insert(len(args) // 2, d)
+                elif where == "nested":
+                    args.append([None, d])
+                else:
+                    args.append(d)
+            return mk(*args)
+        x = _with_children(mk, objs, how)
+        if late:
+            r = route[0]
+            h = len(late) // 2
+            if r in ("item", "split"):
+                for kk, v in late:
+                    x.attrs[kk] = v
+            elif r == "update":
+                x.attrs.update(dict(late))
+            elif r == "update-kw":
+                x.attrs.update(**dict(late))
+            elif r == "update-2":
+                x.attrs.update(dict(late[:h]), dict(late[h:]))
+            elif r == "update-mix":
+                x.attrs.update(dict(late[:h]), **dict(late[h:]))
+            else:
+                raise ValueError(route)
+        return x
     raise ValueError(n)
 
 
@@ -307,7 +405,7 @@ def node_sx(n):
     if k == "F":
         return [4, S(n[1]), node_sx(n[2])]
     if k == "C":
-        _, name, allowed, kwargs, kids, how = n
+        _, name, allowed, kwargs, kids, how = n[:6]
         return [3, S(name), [S(a) for a in (allowed or [])], [[S(kk), val_sx(x)] for kk, x in kwargs],
                 [node_sx(x) for x in kids]]
     raise ValueError(n)
@@ -502,7 +600,7 @@ def ast_node(n, walked=True):
         ks = [ast_node(x, walked) for x in kids]
         return ["create", "'" + name + "'", ps, [x for x in ks if x is not None]]
     if k == "C":
-        _, name, allowed, kwargs, kids, how = n
+        _, name, allowed, kwargs, kids, how = n[:6]
         ps = [[kk, ast_style(v, walked) if kk == "style" else ast_val(v, walked)] for kk, v in props_of(kwargs)]
         ks = [ast_node(x, walked) for x in kids]
         return ["create", name, ps, [x for x in ks if x is not None]]
@@ -718,9 +816,11 @@ def parse_js(src: str):
     return e, flags
 
 
-def mirrors(exp, got, found: set) -> bool:
+def mirrors(exp, got, found: set, unordered: bool = False) -> bool:
     """does the parsed expression mirror the expected one?  A non-finite number written as the bare word is
-    recorded in found and otherwise accepted, so that the comparison goes on"""
+    recorded in found and otherwise accepted, so that the comparison goes on.  unordered: the props of an element
+    are compared as a set of name / value pairs (used where the statement fixes no order between props handed
+    over in different ways)"""
     if exp[0] == "num" and exp[1] in ("inf", "-inf", "nan"):
         if got == ["nonfinite", exp[1]]:
             found.add("float")
@@ -730,13 +830,16 @@ def mirrors(exp, got, found: set) -> bool:
         return False
     k = exp[0]
     if k == "arr":
-        return len(exp[1]) == len(got[1]) and all([mirrors(a, b, found) for a, b in zip(exp[1], got[1])])
+        return len(exp[1]) == len(got[1]) and all([mirrors(a, b, found, unordered) for a, b in zip(exp[1], got[1])])
     if k == "obj":
         return (len(exp[1]) == len(got[1])
-                and all([a[0] == b[0] and mirrors(a[1], b[1], found) for a, b in zip(exp[1], got[1])]))
+                and all([a[0] == b[0] and mirrors(a[1], b[1], found, unordered) for a, b in zip(exp[1], got[1])]))
     if k == "create":
-        return (exp[1] == got[1] and mirrors(["obj", exp[2]], ["obj", got[2]], found)
-                and mirrors(["arr", exp[3]], ["arr", got[3]], found))
+        ep, gp = exp[2], got[2]
+        if unordered:
+            ep, gp = sorted(ep, key=lambda kv: kv[0]), sorted(gp, key=lambda kv: kv[0])
+        return (exp[1] == got[1] and mirrors(["obj", ep], ["obj", gp], found, unordered)
+                and mirrors(["arr", exp[3]], ["arr", got[3]], found, unordered))
     return exp == got
 
 
@@ -801,9 +904,16 @@ OK_NAMES = ["Foo", "Bar", "a.b.Foo", "ui.Card", "X", "Foo.Bar", "$x.Y"]
 BAD_NAMES = ["foo", "a.foo", "Foo.bar", "x", "ui.card"]
 EDGE_NAMES = ["", "a.", "1x", "_x", "..", "A-b", "Foo Bar", "F\"q"]
 PROP_NAMES = ["id", "class_", "class", "data_x", "data-x", "data_x_", "x__", "x_", "x", "onClick", "style",
-              "style_", "aB_c", "_", "__", "a_b_c_", "htmlFor", "v"]
+              "style_", "aB_c", "_", "__", "a_b_c_", "htmlFor", "v", "className", "children", "key",
+              "dangerouslySetInnerHTML"]
+# keys of dict VALUES: written as they are.  The pool holds every name that means something special one level up
+# (style: parsed as CSS there; names that are normalised there), names React treats specially, and plain ones
+DICT_KEYS = ["a", "b", "k1", "data-x", "Z", 'k"q',                       # k"q: known finding C20-key-not-escaped
+             "style", "style", "style_", "Style", "class_", "class", "data_x", "x__", "_", "className", "children",
+             "key", "ref", "__html", "dangerouslySetInnerHTML", "htmlFor", "on_click", " style", "1", ""]
+LATE_ROUTES = ["item", "update", "update-kw", "update-2", "update-mix", "split"]
 TAG_NAMES = ["div", "span", "p", "my-el", "h1"]
-TAG_ATTRS = ["id", "class", "style", "data-x", "title", "href"]
+TAG_ATTRS = ["id", "class", "style", "data-x", "title", "href", "className"]   # normalised: what a Tag's attribute map holds
 CLEAN_JSX = ["cb", "window.foo", "props.x.y", "x1", "$h"]
 DIRTY_JSX = ["() => console.log('here')", "`tpl ${x}`", "a\nb", "x ? \"a\" : 'b'", "[1, 2]", ""]
 INTS = ["0", "1", "-1", "42", "1180591620717411303424", "-7"]
@@ -842,8 +952,9 @@ def gen_style(rng, clean):
         return ["none"]
     if r < 0.85:
         n = rng.choice([0, 1, 2])
-        ks = rng.sample(["color", "margin", "fontSize"], n)
-        return ["dict", [[k, rng.choice([["str", gen_text(rng, clean)], ["int", "3"], ["float", "1.5"], ["bool", True]])]
+        ks = rng.sample(["color", "margin", "fontSize", "style", "font_size", "class_"], n)
+        return ["dict", [[k, rng.choice([["str", gen_text(rng, clean)], ["int", "3"], ["float", "1.5"], ["bool", True],
+                                         ["str", gen_css(rng, True)], ["none"]])]
                          for k in ks]]
     if r < 0.9:
         return ["jsx", gen_css(rng, True)]
@@ -856,12 +967,13 @@ def gen_val(rng, depth, clean, fail, P):
         return ["none"]
     if r < 0.15:
         return ["bool", rng.random() < 0.5]
+    sub = ["sub"] if rng.random() < P.get("sub", 0.0) else []
     if r < 0.24:
-        return ["int", rng.choice(INTS)]
+        return ["int", rng.choice(INTS)] + sub
     if r < 0.32:
-        return ["float", rng.choice(NONFINITE) if rng.random() < 0.12 else rng.choice(FLOATS)]
+        return ["float", rng.choice(NONFINITE) if rng.random() < 0.12 else rng.choice(FLOATS)] + sub
     if r < 0.46:
-        return ["str", gen_text(rng, clean)]
+        return ["str", gen_text(rng, clean)] + sub
     if r < 0.53:
         return ["jsx", rng.choice(CLEAN_JSX if clean else CLEAN_JSX + DIRTY_JSX)]
     if r < 0.58:
@@ -870,11 +982,17 @@ def gen_val(rng, depth, clean, fail, P):
         return ["html", gen_text(rng, clean)]
     if depth > 0 and r < 0.72:
         n = rng.choice([0, 1, 2, 3])
-        return ["list", rng.choice(["list", "tuple"]), [gen_val(rng, depth - 1, clean, False, P) for _ in range(n)]]
+        return ["list", rng.choice(["list", "tuple"]), [gen_val(rng, depth - 1, clean, False, P) for _ in range(n)]] + sub
     if depth > 0 and r < 0.80:
-        n = rng.choice([0, 1, 2])
-        ks = rng.sample(["a", "b", "k1", "data-x", "Z", 'k"q'], n)       # k"q: known finding C20-key-not-escaped
-        return ["dict", [[k, gen_val(rng, depth - 1, clean, False, P)] for k in ks]]
+        n = rng.choice([0, 1, 2, 3])
+        ks = list(dict.fromkeys(rng.choice(DICT_KEYS) for _ in range(n)))
+        # under a key that is special one level up, half of the values are what the special case would choke on
+        # or rewrite: CSS-looking text, None, numbers, lists
+        vs = [gen_style(rng, clean) if k.strip("_ ").lower() == "style" and rng.random() < 0.5
+              else gen_val(rng, depth - 1, clean, False, P) for k in ks]
+        # (a jsx() value is written as it stands: CSS text is not an expression the independent reader can read)
+        vs = [["str", v[1]] if v[0] == "jsx" and v[1] not in CLEAN_JSX + DIRTY_JSX else v for v in vs]
+        return ["dict", [[k, v] for k, v in zip(ks, vs)]] + ([rng.choice(["sub", "ordered"])] if sub else [])
     return ["node", gen_node(rng, depth - 1, clean, fail, P, prop=True)]
 
 
@@ -919,7 +1037,50 @@ def gen_comp(rng, depth, clean, fail, P):
             kids.append(["G", "section", [], [["T", "again"], kids[i]]])
         elif allowed is None:
             kwargs.append(["again", ["node", kids[i]]])
-    return ["C", name, allowed, kwargs, kids, rng.randrange(0, N_HOW)]
+    comp = ["C", name, allowed, kwargs, kids, rng.randrange(0, N_HOW)]
+    # how the props reach the component (see the module docstring)
+    if rng.random() < P.get("posdict", 0.0):
+        return comp + [gen_pos_route(rng, comp, fail)]
+    if kwargs and not allowed and rng.random() < P.get("late", 0.0):
+        return comp + [[rng.choice(LATE_ROUTES)]]
+    return comp
+
+
+def gen_pos_route(rng, comp, fail):
+    """some of the props of comp (possibly none, possibly all) go into one or two dicts given as unnamed arguments.
+    Two thirds of these components declare a non-empty allow-list (comp[2] is rewritten): the props' own names,
+    sometimes with one name missing (kept by keyword or inside a dict), in normalised spelling, or unrelated"""
+    kwargs = comp[3]
+    if rng.random() < 0.5:
+        k = rng.choice([p for p in PROP_NAMES if p not in [kk for kk, _ in kwargs] and norm_name(p) != "style"])
+        kwargs.insert(rng.randrange(0, len(kwargs) + 1), [k, rng.choice([["str", "v"], ["int", "1"], ["jsx", "cb"], ["none"],
+                                                                      ["dict", [["__html", ["str", "b"]]]]])])
+    raw = [kk for kk, _ in kwargs]
+    inside = [k for k in raw if rng.random() < 0.6]
+    r = rng.random()
+    if r < 0.67:
+        allowed = list(raw) + rng.sample(PROP_NAMES, rng.choice([0, 1, 2]))
+        q = rng.random()
+        if raw and q < 0.45:
+            allowed.remove(rng.choice(inside or raw))
+        elif q < 0.6:
+            allowed = [norm_name(a) for a in allowed]
+        elif q < 0.7:
+            allowed = [rng.choice(PROP_NAMES)]
+        rng.shuffle(allowed)
+        comp[2] = allowed or ["title"]
+    elif r < 0.75:
+        comp[2] = []
+    groups = []
+    if len(inside) >= 2 and rng.random() < 0.3:
+        h = rng.randrange(1, len(inside))
+        parts = [inside[:h], inside[h:]]
+    else:
+        parts = [inside]
+    for ks in parts:
+        groups.append([rng.choice(["first", "first", "mid", "last", "last", "nested"]), ks,
+                       rng.choice(["dict", "dict", "dict", "sub", "attrs"])])
+    return ["pos", groups]
 
 
 def gen_tag(rng, depth, clean, fail, P):
@@ -935,6 +1096,8 @@ def gen_tag(rng, depth, clean, fail, P):
 
 
 def gen_tfy(rng, depth, clean, P):
+    # expansions are built during conversion: a dict refused there would be a conversion error, not a construction one
+    P = dict(P, posdict=0.0)
     r = rng.random()
     if r < 0.25:
         exp = ["M", rng.randrange(0, 9)]
@@ -974,12 +1137,14 @@ def gen_node(rng, depth, clean, fail, P, prop=False):
         return ["N", "int", rng.choice(INTS)] if rng.random() < 0.5 else ["N", "float", rng.choice(FLOATS)]
     if not prop and r > 0.9:
         return ["X", rng.choice(CLEAN_JSX if clean else CLEAN_JSX + DIRTY_JSX)]
-    return ["T", gen_text(rng, clean)]
+    return ["T", gen_text(rng, clean)] + (["sub"] if rng.random() < P.get("sub", 0.0) else [])
 
 
 def gen_case(rng):
     clean = rng.random() < 0.6
-    P = {"props": rng.choice([0.5, 0.8, 1.0]), "meta": rng.choice([0.05, 0.15, 0.3]), "tfy": rng.choice([0.0, 0.1, 0.2])}
+    P = {"props": rng.choice([0.5, 0.8, 1.0]), "meta": rng.choice([0.05, 0.15, 0.3]), "tfy": rng.choice([0.0, 0.1, 0.2]),
+         "late": rng.choice([0.0, 0.0, 0.3, 0.7]), "sub": rng.choice([0.0, 0.0, 0.1, 0.4]),
+         "posdict": 0.5 if rng.random() < 0.1 else 0.0}
     c = gen_comp(rng, rng.choice([1, 2, 2, 3, 4]), clean, rng.random() < 0.35, P)
     return {"clean": clean, "tree": c}
 
@@ -1001,6 +1166,42 @@ def enum_small():
                     yield {"clean": True, "tree": ["C", "Foo", None, kw, kids, (3 * len(kids) + 5 * len(kw) + len(json.dumps([k1, k2, v1]))) % N_HOW]}
 
 
+def enum_routes():
+    """bounded-exhaustive over the ways props reach a component: (a) dicts as unnamed arguments: allow-list x names
+    inside the dict x names by keyword x position x dict class x with / without a child, alone and nested in another
+    component; (b) props stored after construction, every route, over colliding and special names; (c) dict values
+    whose keys are special one level up, at three nesting depths"""
+    allow = [None, [], ["a"], ["a", "b_"], ["b-"], ["c", "a", "b_"]]
+    for al in allow:
+        for dk in ([], ["a"], ["c"], ["a", "c"], ["b_"], ["b_", "a"]):
+            for kk in ([], ["a"], ["c"], ["d"]):
+                if set(dk) & set(kk):
+                    continue
+                names = kk + dk if len(dk) % 2 else dk + kk
+                kwargs = [[k, ["str", "v" + k]] for k in names]
+                for i, where in enumerate(["first", "last", "nested"]):
+                    kids = [["T", "x"], ["M", 1]][: (len(names) + i) % 3]
+                    cls = ["dict", "sub", "attrs"][(len(dk) + i + len(kk)) % 3]
+                    c = ["C", "Card", al, kwargs, kids, len(kk), ["pos", [[where, dk, cls]]]]
+                    yield {"clean": True, "tree": c}
+                    if where == "first" and dk:
+                        yield {"clean": True, "tree": ["C", "Outer", None, [["slot", ["node", c]]], [["G", "div", [], [c]]], 0]}
+    vals = [["str", "s"], ["none"], ["node", ["M", 4]], ["dict", [["style", ["str", "a:b"]]]]]
+    for r in LATE_ROUTES:
+        for names in (["x_y"], ["x_y", "x-y"], ["class_", "style", "data_x"], ["x__", "x_", "x"], ["a", "b", "c", "d", "e"]):
+            for j in range(2):
+                kwargs = [[k, ["str", "a:b"] if k == "style" else vals[(i + j) % len(vals)]] for i, k in enumerate(names)]
+                yield {"clean": True, "tree": ["C", "Foo", [None, []][j], kwargs, [["T", "kid"]], j, [r]]}
+    inner_vals = [["str", "dashed"], ["str", "a:b;c:d"], ["none"], ["int", "3"], ["list", "list", [["str", "bold"]]],
+                  ["dict", [["style", ["str", "x"]]]], ["bool", True], ["jsx", "cb"]]
+    for key in ("style", "style_", "class_", "data_x", "Style"):
+        for v in inner_vals:
+            d = ["dict", [["w", ["int", "2"]], [key, v]]]
+            for wrap in (d, ["list", "list", [["dict", [["n", ["str", "a"]]]], d]], ["dict", [["title", d], ["m", ["list", "tuple", []]]]]):
+                yield {"clean": True, "tree": ["C", "Chart", None, [["line", wrap]], [["T", "child"]], 0]}
+                yield {"clean": True, "tree": ["C", "Chart", None, [["style", ["dict", [[key, v]]]]], [], 0]}
+
+
 # ---------------------------------------------------------------------------------------------
 # the checks on one batch of cases
 # ---------------------------------------------------------------------------------------------
@@ -1015,6 +1216,22 @@ W_EXC = ("an exception the statement has no place for (not NotImplementedError a
 W_FAULT = ("after a conversion that raised, converting the same or another component differs from a freshly built "
            "identical component that never saw a fault")
 W_ALLOW = "allowedProps: construction outcome differs from raw-name membership in a non-empty allow-list"
+W_ROUTE = ("allowedProps: a component came into existence with a prop outside its declared, non-empty allow-list (the "
+           "prop was handed over in a dict given as an unnamed argument, next to or instead of keyword props)")
+
+_LATE = re.compile(r'\["(item|update|update-kw|update-2|update-mix|split)"\]')
+
+
+def special_dict_key(obj) -> bool:
+    """some dict VALUE in the description has a key that is special (style) or would be normalised at prop level"""
+    if isinstance(obj, list):
+        if len(obj) >= 2 and obj[0] == "dict" and isinstance(obj[1], list):
+            if any(isinstance(kv, list) and kv and isinstance(kv[0], str) and (kv[0] == "style" or norm_name(kv[0]) != kv[0])
+                   for kv in obj[1]):
+                return True
+        return any(special_dict_key(x) for x in obj)
+    return False
+
 
 STATS: dict = {}
 
@@ -1104,38 +1321,91 @@ def names_are_paths(obj) -> bool:
     """every component name is a dotted identifier path (the name is written as given; other names are not
     JavaScript and the independent reader does not apply)"""
     if isinstance(obj, list):
-        if len(obj) == 6 and obj[0] == "C" and not _IDENT.fullmatch(obj[1]):
+        if len(obj) in (6, 7) and obj[0] == "C" and isinstance(obj[1], str) and not _IDENT.fullmatch(obj[1]):
             return False
         return all(names_are_paths(x) for x in obj)
     return True
 
 
-def expected_allow(n) -> bool:
-    """does construction of this tree succeed, by the statement: every component name starts (after its
-    last dot) with a character that upper() leaves alone, and every RAW kwarg name is in a non-empty
-    allow-list"""
-    def comp_ok(c):
-        last = c[1].split(".")[-1]
-        if last[:1] != last[:1].upper():
-            return False
-        return not (c[2] and any(k not in c[2] for k, _ in c[3]))
+def pos_groups(c):
+    """the dicts handed to this component as unnamed arguments: [[where, [rawname...], cls]...]"""
+    return c[6][1] if len(c) > 6 and c[6] and c[6][0] == "pos" else []
+
+
+def comps_of(n, into_expansions=False):
+    """the components built when the description is built"""
+    out = []
 
     def walk_v(v):
         if v[0] == "list":
-            return all(walk_v(x) for x in v[2])
-        if v[0] == "dict":
-            return all(walk_v(x) for _, x in v[1])
-        if v[0] == "node":
-            return walk_n(v[1])
-        return True
+            for x in v[2]:
+                walk_v(x)
+        elif v[0] == "dict":
+            for _, x in v[1]:
+                walk_v(x)
+        elif v[0] == "node":
+            walk_n(v[1])
 
     def walk_n(m):
         if m[0] == "C":
-            return comp_ok(m) and all(walk_v(v) for _, v in m[3]) and all(walk_n(k) for k in m[4])
-        if m[0] == "G":
-            return all(walk_n(k) for k in m[3])
-        return True          # expansions of tagifiable objects are only built during conversion
-    return walk_n(n)
+            out.append(m)
+            for _, v in m[3]:
+                walk_v(v)
+            for k in m[4]:
+                walk_n(k)
+        elif m[0] == "G":
+            for k in m[3]:
+                walk_n(k)
+        elif m[0] in "FB" and (into_expansions or (len(m) > 3 and m[3] == "tag")):
+            if m[2][0] != "L":
+                walk_n(m[2])
+        # other expansions of tagifiable objects are only built during conversion
+    walk_n(n)
+    return out
+
+
+def has_posdict(n) -> bool:
+    return any(pos_groups(c) for c in comps_of(n, into_expansions=True))
+
+
+def posdict_collision(n) -> bool:
+    """a component taking props both ways has two raw names with one normalised name: which value it ends up with
+    depends on an order between the two ways that the statement does not fix"""
+    return any(pos_groups(c) and len({norm_name(k) for k, _ in c[3]}) < len(c[3]) for c in comps_of(n, True))
+
+
+def allow_verdict(n) -> str:
+    """what the statement says about building this tree.
+    "ok": it is built (every component name starts, after its last dot, with a character that upper() leaves alone,
+          and every RAW keyword name is in the allow-list where a non-empty one is declared);
+    "reject": it must not come into existence: a bad name, a keyword outside the allow-list, or a prop handed over
+          in a dict as an unnamed argument whose name is in the non-empty allow-list neither as given nor normalised;
+    "unclear": such a dict holds a name that is in the list under one of the two readings only: no claim;
+    "refusable": dicts as unnamed arguments with nothing outside the list: built, or refused (not promised)"""
+    verdict = "ok"
+    for c in comps_of(n):
+        last = c[1].split(".")[-1]
+        if last[:1] != last[:1].upper():
+            return "reject"
+        groups = pos_groups(c)
+        inside = {k for _, ks, _ in groups for k in ks}
+        allowed = c[2]
+        if allowed and any(k not in allowed for k, _ in c[3] if k not in inside):
+            return "reject"
+        if groups:
+            if verdict == "ok":
+                verdict = "refusable"
+            if allowed:
+                loose = set(allowed) | {norm_name(a) for a in allowed}
+                if any(k not in loose and norm_name(k) not in loose for k in inside):
+                    return "reject"
+                if any(k not in allowed for k in inside):
+                    verdict = "unclear"
+    return verdict
+
+
+def expected_allow(n) -> bool:
+    return allow_verdict(n) == "ok"
 
 
 def run_batch(ctx: Ctx, cases: list, label: str, rng) -> None:
@@ -1147,9 +1417,32 @@ def run_batch(ctx: Ctx, cases: list, label: str, rng) -> None:
         mv = dec_model(m)
         obs, tag = observe(tree)
         nontriv = has_kind(tree, "MF") or len(json.dumps(tree)) > 120
-        ctx.count(case, nontriv, label)
+        # props handed over in dicts as unnamed arguments: outside the model (its components take keyword props);
+        # the oracles below apply, with no order fixed between the props of the two ways
+        pd = has_posdict(tree)
+        ctx.count(case, nontriv or pd, label + (", props in dicts as unnamed arguments" if pd else ""))
+        verdict = allow_verdict(tree)
+        if pd:
+            stat("prop routes: trees with a dict of props as an unnamed argument")
+            stat("prop routes: ... verdict " + verdict)
+            mv = None
+            if obs == ["construction raised", ["err", 3]]:
+                # TypeError: the dict was refused as an unnamed argument.  A refusal is a rejection, and the
+                # statement does not promise that such dicts are accepted.
+                stat("prop routes: ... refused with TypeError at construction")
+                continue
+        else:
+            js = json.dumps(tree)
+            if _LATE.search(js):
+                stat("prop routes: trees with props stored after construction (attrs[k] = v, attrs.update)")
+            if '"sub"]' in js or '"ordered"]' in js:
+                stat("unusual classes: trees with instances of str / int / float / list / tuple / dict subclasses")
+            if special_dict_key(tree):
+                stat("dict values: trees with a nested dict key that is special or normalised at prop level")
         # ---- B: implementation vs model -------------------------------------------------------
-        if not isinstance(mv, dict) or mv["obs"] != obs:
+        if pd:
+            pass
+        elif not isinstance(mv, dict) or mv["obs"] != obs:
             disagreements.append({"case": case, "impl_output": obs,
                                   "model_output": mv["obs"] if isinstance(mv, dict) else mv})
         # ---- C: oracles ----------------------------------------------------------------------
@@ -1159,16 +1452,18 @@ def run_batch(ctx: Ctx, cases: list, label: str, rng) -> None:
         unexp = unexpected_exceptions(obs)
         if unexp:
             ctx.violation(W_EXC, case, {"impl_output": unexp})
-        ok_expected = expected_allow(tree)
         if obs[0] == "construction raised":
             continue
-        if ok_expected != (obs[0] == "ok"):
-            ctx.violation(W_ALLOW, case, {"impl_output": obs[0], "expected": "ok" if ok_expected else "NotImplementedError"})
+        if pd and verdict == "reject" and obs[0] == "ok":
+            ctx.violation(W_ROUTE, case, {"impl_output": {"built": True, "props": obs[1]}, "allowedProps and props": [
+                [c[1], c[2], pos_groups(c)] for c in comps_of(tree) if pos_groups(c)], "expected": "an exception at construction"})
+        elif verdict in ("ok", "reject") and (verdict == "ok") != (obs[0] == "ok"):
+            ctx.violation(W_ALLOW, case, {"impl_output": obs[0], "expected": "ok" if verdict == "ok" else "NotImplementedError"})
         check_purity(ctx, case, rng)
         if obs[0] != "ok":
             continue
         keys_expected = [k for k, _ in props_of(tree[3])]
-        if obs[1] != keys_expected:
+        if (sorted(obs[1]) != sorted(keys_expected)) if pd else (obs[1] != keys_expected):
             ctx.violation("props are not stored once each under their normalised names (first position, last value)",
                           case, {"impl_output": obs[1], "expected": keys_expected})
         if tag is None:
@@ -1197,10 +1492,12 @@ def run_batch(ctx: Ctx, cases: list, label: str, rng) -> None:
             if metas:
                 stat("metadata oracle: trees with metadata")
             got = [r[1] for r in rest[2:]]
-            if got != metas:
+            if (sorted(got) != sorted(metas)) if pd else (got != metas):
                 ctx.violation(W_META, case, {"impl_output": got, "expected": metas})
             deps = safe(lambda: [d.name for d in tag.get_dependencies(dedup=False)])
             exp_deps = ["ok", ["react", "react-dom"] + [f"m{i}" for i in metas if i % 3 != 2]]
+            if pd and deps[0] == "ok":
+                deps, exp_deps = ["ok", sorted(deps[1])], ["ok", sorted(exp_deps[1])]
             if deps != exp_deps:
                 ctx.violation(W_META, case, {"impl_output": deps, "expected": exp_deps})
         for d in tag.children[1:3]:
@@ -1222,7 +1519,7 @@ def run_batch(ctx: Ctx, cases: list, label: str, rng) -> None:
             # semantic reading is oracle (3) below)
             spec_diff.append({"case": case, "impl_output": comp, "spec_output": mv.get("spec_js")})
         # (3) independent reader, on trees whose strings are free of backslashes and line breaks
-        if case.get("clean") and all_strings_clean(tree) and names_are_paths(tree):
+        if case.get("clean") and all_strings_clean(tree) and names_are_paths(tree) and not (pd and posdict_collision(tree)):
             try:
                 expected = ast_node(tree)
             except NoReading:
@@ -1232,7 +1529,7 @@ def run_batch(ctx: Ctx, cases: list, label: str, rng) -> None:
                 found: set = set()
                 try:
                     got, flags = parse_js(comp)
-                    same = mirrors(expected, got, found)
+                    same = mirrors(expected, got, found, unordered=pd)
                     if "key" in flags:
                         found.add("key")
                 except JsError as e:
@@ -1264,9 +1561,9 @@ def _map_tree(n, f_node, f_val):
     def val(v):
         k = v[0]
         if k == "list":
-            v = [k, v[1], [val(x) for x in v[2]]]
+            v = [k, v[1], [val(x) for x in v[2]]] + list(v[3:])
         elif k == "dict":
-            v = [k, [[kk, val(x)] for kk, x in v[1]]]
+            v = [k, [[kk, val(x)] for kk, x in v[1]]] + list(v[2:])
         elif k == "node":
             v = [k, node(v[1])]
         return f_val(v)
@@ -1276,7 +1573,7 @@ def _map_tree(n, f_node, f_val):
         if k == "G":
             m = [k, m[1], m[2], [node(x) for x in m[3]]]
         elif k == "C":
-            m = [k, m[1], m[2], [[kk, val(x)] for kk, x in m[3]], [node(x) for x in m[4]], m[5]]
+            m = [k, m[1], m[2], [[kk, val(x)] for kk, x in m[3]], [node(x) for x in m[4]], m[5]] + list(m[6:])
         elif k in "FB":
             m = [k, m[1], node(m[2]) if m[2][0] != "L" else m[2]] + list(m[3:])
         return f_node(m)
@@ -1680,6 +1977,8 @@ def run(ctx: Ctx) -> None:
     if ctx.quick:
         small = rng.sample(small, 600)
     stage(ctx, "small scope", lambda: run_batch(ctx, small, "small scope", rng))
+    routes = list(enum_routes())
+    stage(ctx, "prop routes", lambda: run_batch(ctx, routes, "small scope, prop routes and dict keys", rng))
     stage(ctx, "strings", lambda: run_strings(ctx, rng))
     stage(ctx, "css", lambda: run_css(ctx, rng))
     stage(ctx, "render", lambda: run_render(ctx, rng))
